@@ -11,9 +11,6 @@ use std::collections::{HashMap, HashSet};
 verus! {
 broadcast use vstd::std_specs::hash::group_hash_axioms;
 
-// dropping a lock guard early is a common harmless refactor: keep it within reach
-pub assume_specification<X> [core::mem::drop::<X>] (x: X);
-
 pub type RequestId = i32;
 pub struct StructureTag { pub id: u64, pub class: u8, pub payload: Vec<u8> }
 pub struct Null { pub id: u64 }
